@@ -177,6 +177,9 @@ def classify(exc):
     return "raw"
 
 
+RX_MODE = [0]     # 0: bytes; 1: one bytearray refilled for every read; 2: memoryview slices of one pool (set per case by the checks)
+
+
 class ImplSession:
     """Runs the real APINoiseFrameHelper over the session ops; produces the model's line format."""
 
@@ -242,7 +245,26 @@ class ImplSession:
             if self.dead or priv(h, "_transport") is None:
                 pass
             else:
-                exc = run(h.data_received, arg)
+                # what the helper is handed belongs to the caller: bytes, or a receive buffer the caller refills for its next read
+                mode, given, scrub = RX_MODE[0], arg, None
+                if mode == 1:
+                    given = scrub = self.__dict__.setdefault("_rx_bytearray", bytearray())
+                    del given[:]
+                    given += arg
+                elif mode == 2:
+                    scrub = self.__dict__.setdefault("_rx_pool", bytearray(max(1 << 17, len(arg))))
+                    if len(arg) > len(scrub):
+                        scrub.extend(bytes(len(arg) - len(scrub)))
+                    scrub[:len(arg)] = arg
+                    given = memoryview(scrub)[:len(arg)]
+                exc = run(h.data_received, given)
+                if scrub is not None:
+                    if mode == 2:
+                        try:
+                            given.release()
+                        except BufferError:
+                            pass
+                    scrub[:len(arg)] = b"\xee" * len(arg)
                 if exc is not None:
                     rk = "invalid_tag" if isinstance(exc, _IT) else "index" if isinstance(exc, IndexError) else \
                          "unicode" if isinstance(exc, UnicodeDecodeError) else "other:" + type(exc).__name__
